@@ -6,6 +6,7 @@
 
 pub mod clock;
 pub mod disc_rig;
+pub mod listener_rig;
 pub mod net;
 pub mod reader_rig;
 pub mod sched;
